@@ -7,17 +7,21 @@ def jobs(tier):
     for alg in ('ff', 'bf', 'ffd', 'bfd'):
         for n in (2, 3, 4):
             J.append(job(alg, n, checks=ck))
-    for alg in ('ff', 'bf'):
-        J.append(job(alg, 5, checks=ck, order='desc')); J.append(job(alg, 5, checks=ck, order='asc'))
+    for alg in ('ff', 'bf', 'ffd', 'bfd'):
+        J.append(job(alg, 5, checks=ck)); J.append(job(alg, 6, checks=ck, order='desc'))
         J.append(job(alg, 4, checks=ck, pres='list'))
+    for alg in ('ff', 'bf'):
+        J.append(job(alg, 6, checks=ck)); J.append(job(alg, 7, checks=ck, order='asc')); J.append(job(alg, 7, checks=ck, order='desc'))
+    for alg in ('ffd', 'bfd'):
+        J.append(job(alg, 7, checks=ck, order='desc'))
     if tier == 'thorough':
         for alg in ('ff', 'bf'):
-            J.append(job(alg, 5, checks=ck)); J.append(job(alg, 6, checks=ck, order='desc')); J.append(job(alg, 6, checks=ck, order='asc'))
+            J.append(job(alg, 7, checks=ck, mandatory=False)); J.append(job(alg, 8, checks=ck, order='desc', mandatory=False))
         for alg in ('ffd', 'bfd'):
-            J.append(job(alg, 5, checks=ck)); J.append(job(alg, 6, checks=ck, order='desc'))
+            J.append(job(alg, 6, checks=ck, mandatory=False)); J.append(job(alg, 8, checks=ck, order='desc', mandatory=False))
     return J
 
 
 ASSUMPTIONS = ['S1 numpy shim', 'S2 exact arithmetic', 'OPT from the expansion oracle over all assignments']
-OUTSIDE = ['more than 5 (quick) / 6 (thorough) items: the ratio bounds only become tight for dozens of items; at these sizes they are implied by the invariant',
+OUTSIDE = ['more than 7 (quick) / 8 (thorough) items: the ratio bounds only become tight for dozens of items; at these sizes they are implied by the invariant',
            'planted large instances']
